@@ -62,7 +62,7 @@ func main() {
 			os.Exit(2)
 		}
 		sched := has(*doSched, p.PkgPath)
-		maps := has(*doMaps, p.PkgPath)
+		maps := has(*doMaps, p.PkgPath) || *doMaps == "all"
 		if !sched && !maps {
 			continue
 		}
@@ -123,9 +123,38 @@ func call(fn ast.Expr, args ...ast.Expr) *ast.CallExpr {
 
 func rewriteFile(p *packages.Package, f *ast.File, sched, maps bool, st *stats) bool {
 	changed := false
+	// sites are named by file and enclosing function (plus an ordinal within the function) so
+	// that the names survive edits that only shift line numbers
+	type fnRange struct {
+		from, to token.Pos
+		name     string
+	}
+	var fns []fnRange
+	for _, d := range f.Decls {
+		if fd, ok := d.(*ast.FuncDecl); ok {
+			name := fd.Name.Name
+			if fd.Recv != nil && len(fd.Recv.List) > 0 {
+				name = types.ExprString(fd.Recv.List[0].Type) + "." + name
+			}
+			fns = append(fns, fnRange{fd.Pos(), fd.End(), name})
+		}
+	}
+	ordinals := map[string]int{}
 	site := func(kind string, n ast.Node) string {
 		pos := p.Fset.Position(n.Pos())
-		s := fmt.Sprintf("%s:%d:%s", filepath.Base(pos.Filename), pos.Line, kind)
+		rel, err := filepath.Rel(filepath.Join(*repoRoot, "homescript"), pos.Filename)
+		if err != nil {
+			rel = filepath.Base(pos.Filename)
+		}
+		fn := "?"
+		for _, r := range fns {
+			if n.Pos() >= r.from && n.Pos() < r.to {
+				fn = r.name
+			}
+		}
+		key := rel + ":" + fn + ":" + kind
+		ordinals[key]++
+		s := fmt.Sprintf("%s#%d", key, ordinals[key])
 		st.Sites = append(st.Sites, s)
 		return s
 	}
